@@ -1,13 +1,16 @@
 //! zsim — deterministic simulation with fault injection for KillingSpark/zstd-rs (see /verif/DESIGN.md).
 
+mod c02;
 mod c03;
 mod c04;
 mod c05;
 mod c06;
 mod c07;
+mod c08;
 mod c09;
 mod c10;
 mod c11;
+mod c16;
 mod c17;
 mod content;
 mod driver;
@@ -41,7 +44,11 @@ macro_rules! with_engine {
                 $body
             }
             "C08" => {
-                let $e = c06::DecodeSim { mode: c06::Mode::C08 };
+                let $e = c08::C08::new();
+                $body
+            }
+            "C02" => {
+                let $e = c02::C02;
                 $body
             }
             "C03" => {
@@ -64,6 +71,10 @@ macro_rules! with_engine {
                 let $e = c09::C09;
                 $body
             }
+            "C16" => {
+                let $e = c16::C16;
+                $body
+            }
             "C17" => {
                 let $e = c17::C17;
                 $body
@@ -84,7 +95,7 @@ macro_rules! with_engine {
     };
 }
 
-pub const ALL_ENGINES: &[&str] = &["C03", "C04", "C05", "C06", "C07", "C08", "C09", "C10", "C11", "C17"];
+pub const ALL_ENGINES: &[&str] = &["C02", "C03", "C04", "C05", "C06", "C07", "C08", "C09", "C10", "C11", "C16", "C17"];
 
 fn do_replay<E: Engine>(engine: &E, path: &Path) -> i32 {
     match runner::replay(engine, path) {
@@ -213,6 +224,27 @@ fn main() {
                 };
                 check(&e, tier, &opts).exit
             })
+        }
+        "debug-skew" => {
+            for skew in [64u16, 100, 128, 150, 200, 230, 250] {
+                for len in [4096usize, 131072] {
+                    let c = content::Content::Alphabet { len, seed: 1, symbols: skew };
+                    let data = c.generate();
+                    let out = ruzstd::encoding::compress_to_vec(&data[..], ruzstd::encoding::CompressionLevel::Fastest);
+                    let mut h = [0usize; 256];
+                    for b in &data { h[*b as usize] += 1; }
+                    let ent: f64 = h.iter().filter(|c| **c > 0).map(|c| { let p = *c as f64 / len as f64; -p * p.log2() }).sum();
+                    println!("skew {skew} len {len}: out {} entropy {:.3} bits/byte", out.len(), ent);
+                }
+            }
+            0
+        }
+        "debug-hunt" => {
+            let mut r = rng::Rng::new(index);
+            let t0 = std::time::Instant::now();
+            let c = c02::hunt_boundary_block(&mut r, 300);
+            println!("hunt result {:?} in {:?}", c, t0.elapsed());
+            0
         }
         "emit-replay" => {
             let Some(id) = pos.first() else { usage() };
